@@ -87,6 +87,7 @@ def run(ctx):
     if tc_vt:
         tc_vt.run(ctx, pick, ipick, rng)
 
+    tc.finish(ctx)
     vlib.write_evidence(ctx, "model_checking",
                         "TLC enumerates the pre-authentication phase with a clock for every opener class and piece-wise "
                         "delivery; simulated behaviours (pairwise distinct as sequences of environment actions and observations, "
